@@ -5,8 +5,10 @@ import (
 	"fmt"
 	"sort"
 	"strings"
+	"unicode/utf8"
 
 	"github.com/influxdata/kapacitor/tick/ast"
+	"github.com/influxdata/kapacitor/tick/stateful"
 
 	"verifharness/kit"
 )
@@ -279,6 +281,117 @@ func genUDFBytes(r *kit.Rand) []byte {
 	return b
 }
 
+// ---- expressions over EVERY builtin function, taken from the live registry (stateful.NewFunctions) ----
+
+// argExpr gives, for an argument type, the lambda text that makes the argument DATA dependent.
+func argExpr(vt ast.ValueType, nth map[ast.ValueType]int) (string, bool) {
+	k := nth[vt]
+	nth[vt]++
+	switch vt {
+	case ast.TString:
+		return []string{`"s"`, `"t"`, `"s"`, `"t"`}[k%4], true
+	case ast.TInt:
+		return []string{`"a"`, `"b"`, `"a"`}[k%3], true
+	case ast.TFloat:
+		return `"f"`, true
+	case ast.TBool:
+		return `("a" >= 0)`, true
+	case ast.TDuration:
+		return `1s * "a"`, true
+	case ast.TRegex:
+		return []string{`/д+/`, `/(?i)[a-z𝄞]*/`}[k%2], true
+	case ast.TTime:
+		return `"time"`, true
+	}
+	return "", false
+}
+
+type fnExpr struct{ name, expr string }
+
+// builtinExprs: one boolean expression per (builtin, signature domain) that is true whenever the call
+// evaluates without error.
+func builtinExprs() []fnExpr {
+	fs := stateful.NewFunctions()
+	var names []string
+	for n := range fs {
+		names = append(names, n)
+	}
+	sort.Strings(names)
+	var out []fnExpr
+	for _, n := range names {
+		var doms []string
+		exprs := map[string]string{}
+		for d, ret := range fs[n].Signature() {
+			var args []string
+			ok := true
+			nth := map[ast.ValueType]int{}
+			for _, vt := range d {
+				if vt == ast.InvalidType {
+					break
+				}
+				a, good := argExpr(vt, nth)
+				if !good {
+					ok = false
+					break
+				}
+				args = append(args, a)
+			}
+			if !ok {
+				continue
+			}
+			call := n + "(" + strings.Join(args, ", ") + ")"
+			var e string
+			switch ret {
+			case ast.TBool, ast.TInt, ast.TFloat, ast.TString, ast.TDuration:
+				e = "strLength(string(" + call + ")) >= 0"
+			case ast.TTime:
+				e = "unixNano(" + call + ") != 1"
+			default:
+				continue
+			}
+			key := d.String()
+			doms = append(doms, key)
+			exprs[key] = e
+		}
+		sort.Strings(doms)
+		for _, k := range doms {
+			out = append(out, fnExpr{n, exprs[k]})
+		}
+	}
+	return out
+}
+
+// hostile string values: multi-byte, of lengths around the allocator's size classes
+func hostileStrings(r *kit.Rand) []string {
+	var out []string
+	for _, n := range []int{0, 1, 31, 32, 33, 40, 100} {
+		for _, u := range []string{"д", "𝄞", "aд", "é𝄞"} {
+			out = append(out, strings.Repeat(u, n))
+		}
+	}
+	out = append(out, "abcdef", strings.Repeat("x", 40), "\xff\xfe", "д\x00д")
+	return out
+}
+
+func boundaryInts(s string) []int64 {
+	n := int64(utf8.RuneCountInString(s))
+	b := int64(len(s))
+	return []int64{0, 1, n - 1, n, n + 1, b - 1, b, b + 1, -1, 2 * b, (n + b) / 2, -9223372036854775808, 9223372036854775807}
+}
+
+func genLiveX(r *kit.Rand, fe fnExpr, hs []string) []string {
+	node := kit.Pick(r, []string{"where", "where", "eval", "stateCount", "alert", "stateDuration"})
+	line := "livex " + node + " " + fe.name + " " + kit.Esc(fe.expr)
+	for k := 0; k < 8; k++ {
+		s := kit.Pick(r, hs)
+		bi := boundaryInts(s)
+		t := kit.Pick(r, []string{"", "д", "𝄞", "aд", s, "c", "\xff"})
+		line += fmt.Sprintf(" s=s:%s;t=s:%s;a=i:%d;b=i:%d;f=f:%s", kit.Esc(s), kit.Esc(t), kit.Pick(r, bi), kit.Pick(r, bi),
+			kit.Pick(r, []string{"1.5", "0", "-1", "1e308", "-1e308", "5e-324", "0.5"}))
+	}
+	return []string{line}
+}
+
 func lexLines(s string, kinds ...string) []string {
 	e := kit.Esc(s)
 	ls := []string{"lex " + e}
@@ -396,6 +509,24 @@ func generate(f kit.Flags) [][]string {
 		case 7:
 			b := genUDFBytes(r)
 			cases = append(cases, []string{fmt.Sprintf("udfread %s %d", kit.Esc(string(b)), r.Intn(4))})
+		}
+	}
+
+	// (3b) every builtin function (from the live registry) in a real task, fed multi-byte strings of
+	// critical lengths and index arguments derived from BOTH the byte length and the rune count
+	fes := builtinExprs()
+	hs := hostileStrings(r)
+	perFn := 1
+	if thorough {
+		perFn = 6
+	}
+	for _, fe := range fes {
+		reps := perFn
+		if strings.HasPrefix(fe.name, "str") || fe.name == "regexReplace" || fe.name == "humanBytes" || fe.name == "string" {
+			reps = perFn * 4
+		}
+		for k := 0; k < reps; k++ {
+			cases = append(cases, genLiveX(r, fe, hs))
 		}
 	}
 
